@@ -26,6 +26,18 @@ def eval_call(E, node, st):
             if rx is None:
                 raise SpecError("regex %r" % pat)
             return E.bind(E.eval(node.args[1], st), lambda s, v: [Out("ok", s, vbool(z3.InRe(v.t, rx)))])
+        if f.id in ("iter_seq", "iter_pos", "seq") and E.spec_mode:
+            from . import pymodel
+
+            def ki(s, v):
+                if f.id == "iter_seq":
+                    return [Out("ok", s, V(Kind("seq", v.kind[1]), pymodel.iter_seq(E, s, v)))]
+                if f.id == "iter_pos":
+                    return [Out("ok", s, V(INT, pymodel.iter_pos(E, s, v)))]
+                if v.kind.tag == "seq":
+                    return [Out("ok", s, v)]
+                return [Out("ok", s, V(Kind("seq", v.kind[1]), E.list_seq(s, v)))]
+            return E.bind(E.eval(node.args[0], st), ki)
         if f.id == "now" and E.spec_mode:
             from .pymodel import clock_value
             return [Out("ok", st, V(REAL, clock_value(E, st)))]
@@ -671,6 +683,13 @@ def havoc(E, st, locs, env, old_st):
             for k in ks:
                 for key, srt in E.field_keys(node.attr, k):
                     s.heap[key] = z3.Store(E.arr(s, key, z3.IntSort(), srt), r, z3.Const(fresh_name("hv_" + node.attr), srt))
+        elif isinstance(node, ast.Call) and isinstance(node.func, ast.Name) and node.func.id == "ITER":
+            # the position of an iterator (never moves backwards, never beyond the end)
+            from . import pymodel
+            it = spec_value(E, node.args[0], st, env, old_st)
+            newpos = z3.Int(fresh_name("hv_iterpos"))
+            s.pc = s.pc + (z3.And(newpos >= pymodel.iter_pos(E, s, it), newpos <= z3.Length(pymodel.iter_seq(E, s, it))),)
+            s.heap["II"] = z3.Store(E.arr(s, "II", z3.IntSort(), z3.IntSort()), it.t, newpos)
         elif isinstance(node, ast.Call) and isinstance(node.func, ast.Name) and node.func.id == "items":
             base = spec_value(E, node.args[0], st, env, old_st)
             _havoc_items(E, s, base)
@@ -718,10 +737,10 @@ def _havoc_field_all(E, s, fname):
             ks = alts(fk)
             if len(ks) > 1:
                 tk = "T|%s|%s" % (fname, fk)
-                s.heap[tk] = z3.Array(fresh_name(tk), z3.IntSort(), z3.IntSort())
+                s.heap[tk] = z3.Array(fresh_name(tk.replace("|", "/")), z3.IntSort(), z3.IntSort())
             for k in ks:
                 for key, srt in E.field_keys(fname, k):
-                    s.heap[key] = z3.Array(fresh_name(key), z3.IntSort(), srt)
+                    s.heap[key] = z3.Array(fresh_name(key.replace("|", "/")), z3.IntSort(), srt)
             found = True
     if not found:
         raise SpecError("modifies ANY.%s: no such field" % fname)
